@@ -11,26 +11,37 @@ CLAIM = {
     "technique": "Lean 4 theorems about a transliteration of PrettyDecimal::from_str / Display (byte state machine, "
                  "rust_decimal range check, Comma3Dot printer) against an independent recogniser/value function, + exhaustive "
                  "short-string and random long-string correspondence with the real parser and printer, in every syntactic position",
-    "text": ("Proof (partial): the literal scanner is modelled branch by branch (comma_pos, format, mantissa, scale, prefix_len, sign, "
+    "text": ("Proof: the literal scanner is modelled branch by branch (comma_pos, format, mantissa, scale, prefix_len, sign, "
              "has_digit, end-of-input validation, i128 checked arithmetic, Decimal::try_from_i128_with_scale) and the printer digit by "
-             "digit. Theorems for ALL strings: C07_total (value or error, no panic, no hang); C07_closed_form: the state machine accepts "
-             "exactly optional '-' + digits + (nothing | '.' digits | after 1-3 leading digits, one or more complete ',ddd' groups then "
-             "nothing or '.' digits), returns mantissa = the digits read as one number, scale = digits after the point, format = "
-             "grouped / plain / none, no negative zero, subject to < 2^96 and <= 28 places, and everything else is an error value "
-             "(C07_reject_is_error). NOT yet theorems: the reduction of the closed form to the split-style predicates of Spec/Literal.lean "
-             "(C07_sound_stmt / C07_complete_stmt / C07_reject_stmt stay visible as Prop definitions) and the print/re-read law "
-             "(C07_print_stmt; its naive form is refuted by C07_print_naive_false: `0,123` prints as `123`). Those clauses are covered by "
-             "the correspondence: on every run PrettyDecimal::from_str + to_string and the real ledger parser / price-db loader are run on "
-             "every string over {0,1,5,9,',','.','-'} up to length 6 (7 thorough), random literals up to 45 digits around 2^96 / 28 places / "
-             "2^127, and literals embedded in 11 syntactic positions; the Lean Spec predicates and an independent regular-expression "
-             "oracle are evaluated on what the real code returned (acceptance, value, places, grouping, printed text re-read)."),
+             "digit (rust_decimal Display for Plain/None, the hand-written Comma3Dot loop). Theorems for ALL strings, no length bound: "
+             "C07_total (value or error, no panic, no hang); C07_closed_form (state machine = closed form); C07_scan_spec: "
+             "from_str accepts s iff WellFormedLiteral s and Representable s (the independent split-style recogniser of Spec/Literal.lean: "
+             "optional '-', digits or 1-3 digits + complete ',ddd' groups, at most one '.', at least one digit; <= 28 places, mantissa < 2^96) "
+             "and then returns exactly the decimal written (sign unless zero, litMant, litScale, grouping). Its corollaries are the "
+             "property's statements as stated: C07_sound (accepted => well formed, value = litValue, places = litScale, grouping as written), "
+             "C07_complete (well formed and representable => accepted), C07_reject (anything else => an error value, never a crash). "
+             "Print law: C07_print_exact - for EVERY decimal with mantissa < 2^96 and scale <= 28 the printed text is accepted again with the "
+             "same mantissa, scale and sign (zero unsigned) and grouping style = none below 1000, else commas iff tagged Comma3Dot; "
+             "C07_print (as stated: re-reading the printed form of an accepted literal preserves sign, mantissa, scale and, for an integer "
+             "part >= 1000, the grouping style), C07_print_value / C07_print_text (the printed text is a well-formed literal with the written "
+             "value and decimal places). The naive law scan(print d) = d is refuted (C07_print_naive_false: `0,123` prints as `123`). "
+             "NOT theorems: that the Lean model equals the Rust code (rust_decimal / winnow internals are modelled from source) and the "
+             "token extent in the 11 syntactic positions - both covered by the correspondence: on every run PrettyDecimal::from_str + "
+             "to_string and the real ledger parser / price-db loader are run on every string over {0,1,5,9,',','.','-'} up to length 6 "
+             "(7 thorough), random literals up to 45 digits around 2^96 / 28 places / 2^127, and literals embedded in 11 syntactic "
+             "positions; the Lean Spec predicates and an independent regular-expression oracle are evaluated on what the real code "
+             "returned (acceptance, value, places, grouping, printed text re-read)."),
     "note": "rust_decimal's Display/rescale and winnow's take_while/try_map are modelled from their sources, validated by the correspondence only.",
     "design_ref": "DESIGN.md section 6, C07",
 }
 
 THEOREMS = ["Okane.C07.C07_total", "Okane.C07.C07_closed_form", "Okane.C07.C07_reject_is_error", "Okane.C07.C07_print_naive_false",
             "Okane.C07.run_frac", "Okane.C07.run_comma", "Okane.C07.run_tail", "Okane.C07.run_digits",
-            "Okane.C07.run_first_comma", "Okane.C07.run_body"]
+            "Okane.C07.run_first_comma", "Okane.C07.run_body",
+            "Okane.C07.bodySpec_eq_spec", "Okane.C07.C07_scan_spec", "Okane.C07.C07_sound", "Okane.C07.C07_sound_fields",
+            "Okane.C07.C07_complete", "Okane.C07.C07_reject",
+            "Okane.C07.printPlain_spec", "Okane.C07.printComma_spec", "Okane.C07.printPDec_spec",
+            "Okane.C07.C07_print_exact", "Okane.C07.C07_print", "Okane.C07.C07_print_value", "Okane.C07.C07_print_text"]
 
 ALPHABET = "0159,.-"
 POSITIONS = ["amount", "paren", "neg", "cost", "total", "lot", "lottotal", "balance", "balonly", "format", "pricedb"]
